@@ -266,6 +266,7 @@ class ClientDriver:
         self.coro = coro and mode == 'async'
         self.trace = []
         self.loads_table = []
+        self.nested = None          # frame the next EVENT handler body delivers before it returns (op 'msg_nested')
         log = logging.getLogger('verif.null')
         log.addHandler(logging.NullHandler())
         log.propagate = False
@@ -305,12 +306,22 @@ class ClientDriver:
         self._install_handlers()
 
     # ---- scripted handlers ----
-    def _make(self, hid, method=False):
+    RESERVED = ('connect', 'connect_error', 'disconnect', '__disconnect_final')
+
+    def _make(self, hid, method=False, event='ev'):
         b = self.cfg['behav'][hid]
         drv = self
+        is_event = event not in self.RESERVED
 
-        def body(args):
+        def enter(args):
+            """Handler entered: record the call; returns the frame to deliver from inside the body, if armed."""
             drv.trace.append(('Call', hid, tuple(_copy(list(args)))))
+            if is_event and drv.nested is not None:
+                p, drv.nested = drv.nested, None
+                return (p,)
+            return None
+
+        def leave():
             out = b['outcome']
             if out[0] == 'ret':
                 return _copy(out[1])
@@ -323,11 +334,16 @@ class ClientDriver:
             params, tup = ', '.join(names), '(' + ''.join(x + ', ' for x in names) + ')'
         if method:
             params = 'self, ' + params if params else 'self'
-        env = {'body': body}
+        env = {'enter': enter, 'leave': leave, 'drv': drv}
         if self.coro:
-            src = 'async def h(%s):\n    return body(%s)\n' % (params, tup)
+            src = ('async def h(%s):\n    p = enter(%s)\n    if p is not None:\n        await drv.eio.receive(p[0])\n'
+                   '    return leave()\n' % (params, tup))
+        elif self.mode == 'async':
+            # a plain function on the asyncio client cannot await the nested delivery (never armed: see run_history)
+            src = 'def h(%s):\n    enter(%s)\n    return leave()\n' % (params, tup)
         else:
-            src = 'def h(%s):\n    return body(%s)\n' % (params, tup)
+            src = ('def h(%s):\n    p = enter(%s)\n    if p is not None:\n        drv.eio.receive(p[0])\n'
+                   '    return leave()\n' % (params, tup))
         exec(src, env)
         return env['h']
 
@@ -335,12 +351,12 @@ class ClientDriver:
         import socketio
         for ns, tbl in self.cfg.get('handlers', {}).items():
             for ev, hid in tbl.items():
-                self.sio.on(ev, self._make(hid), namespace=ns)
+                self.sio.on(ev, self._make(hid, event=ev), namespace=ns)
         base = socketio.ClientNamespace if self.mode == 'sync' else socketio.AsyncClientNamespace
         for ns, methods in self.cfg.get('ns_handlers', {}).items():
             attrs = {}
             for ev, hid in methods.items():
-                attrs['on_' + ev] = self._make(hid, method=True)
+                attrs['on_' + ev] = self._make(hid, method=True, event=ev)
             cls = type('ScriptedNS', (base,), attrs)
             self.sio.register_namespace(cls(ns))
 
@@ -376,13 +392,15 @@ class ClientDriver:
         eio.scheduled, eio.delivered, eio.call_reply, eio.eio_fails = [], [], None, False
         k = o[0]
         tables = None
-        if k == 'msg':
+        if k in ('msg', 'msg_nested'):
+            self.nested = _copy(o[2]) if k == 'msg_nested' else None
             try:
                 await aw(eio.receive(_copy(o[1])))
             except BaseException as e:      # nothing may escape engine.io's containment
                 self.trace.append(('Raised', 'OtherError'))
                 eio.contained.append(('escaped', coqio.exn_name(e)))
             tables = self.loads_table
+            self.nested = None
         elif k == 'loss':
             await aw(eio.lose())
         elif k == 'server_close':
@@ -442,6 +460,8 @@ class ClientDriver:
 
 def run_history(cfg, ops, mode='sync', coro=False):
     """Returns the list of (effects, tables, dump) per operation."""
+    if any(o[0] == 'msg_nested' for o in ops):
+        coro = True         # the nested delivery has to be awaited inside the handler on the asyncio client
     async def main():
         d = ClientDriver(cfg, mode, coro)
         out = []
@@ -479,6 +499,45 @@ def c_table(tbl):
     return clist(items)
 
 
+def suffix_table(payload, have=()):
+    """json.loads oracle entries for every place where the JSON part of a text frame can start, so that the model can decode the frame even if
+    the implementation never looked at it (a frame the implementation swallowed must show up as a difference in
+    the effects, not as an oracle miss that the model swallows too)."""
+    import json
+    if not isinstance(payload, str) or len(payload) > 400:
+        return []
+    seen = set(x[0] for x in have)
+    out = []
+    # where the JSON part of a frame can start: after the type digit, the attachment count and '-', the
+    # namespace and ',', and the id digits (every combination of those being present or not)
+    starts = {1}
+    for p in list(starts):
+        d = payload.find('-', p)
+        if d > p and payload[p:d].isdigit():
+            starts.add(d + 1)
+    for p in list(starts):
+        if payload[p:p + 1] == '/':
+            c = payload.find(',', p)
+            starts.add(c + 1 if c >= 0 else len(payload))
+    for p in list(starts):
+        q = p
+        while q < len(payload) and payload[q].isdigit():
+            q += 1
+        starts.add(q)
+    for i in sorted(starts):
+        suf = payload[i:]
+        if not suf or suf in seen:
+            continue
+        seen.add(suf)
+        try:
+            out.append((suf, True, json.loads(suf)))
+        except RecursionError:
+            out.append((suf, False, 'OtherError'))
+        except Exception as e:
+            out.append((suf, False, coqio.exn_name(e)))
+    return out
+
+
 def c_op(o, tables=None):
     k = o[0]
     ons = lambda n: copt(n, cstr)  # noqa: E731
@@ -489,7 +548,11 @@ def c_op(o, tables=None):
         return '(CConnect %s %s %s %s %s %s)' % (copt(nss, lambda l: clist([cstr(n) for n in l])), pv(auth),
                                                   cbool(auth_callable), cbool(wait), cbool(eio_fails), win)
     if k == 'msg':
-        return '(CMsg %s %s)' % (pv(o[1]), c_table(tables))
+        return '(CMsg %s %s)' % (pv(o[1]), c_table(list(tables or []) + suffix_table(o[1], tables or [])))
+    if k == 'msg_nested':
+        t1 = list(tables or []) + suffix_table(o[1], tables or [])
+        t2 = list(tables or []) + suffix_table(o[2], tables or [])
+        return '(MsgNested %s %s %s %s)' % (pv(o[1]), c_table(t1), pv(o[2]), c_table(t2))
     if k == 'emit':
         _, ev, data, ns, cb = o
         return '(CEmit %s %s %s %s)' % (cstr(ev), pv(data), ons(ns), copt(cb, cN))
@@ -538,3 +601,10 @@ def ccase_term(cfg, ops, results):
     ops_t = [c_op(o, tbl) for o, (_, tbl, _) in zip(ops, results)]
     obs_t = ['(%s, %s)' % (clist([c_eff(e) for e in effs]), c_dump(dump)) for effs, _, dump in results]
     return '(mkCase %s %s %s)' % (c_cfg(cfg), clist(ops_t), clist(obs_t))
+
+
+def xcase_term(cfg, ops, results):
+    """The same history in the extended vocabulary of Client/ClientX.v (plain operations wrapped)."""
+    ops_t = [c_op(o, tbl) if o[0] == 'msg_nested' else '(Plain %s)' % c_op(o, tbl) for o, (_, tbl, _) in zip(ops, results)]
+    obs_t = ['(%s, %s)' % (clist([c_eff(e) for e in effs]), c_dump(dump)) for effs, _, dump in results]
+    return '(mkXCase %s %s %s)' % (c_cfg(cfg), clist(ops_t), clist(obs_t))
